@@ -210,7 +210,9 @@ func executeOne(t *testing.T, sc *Scenario, keepLog bool) (out *Outcome) {
 	out = &Outcome{Sc: sc}
 	start := time.Now()
 	before := socketFDs()
-	if sc.Knobs.LocalPort > 0 && len(sc.Listeners) == 0 {
+	// (only inside a worker's private network namespace: the setting is per namespace, and the host's
+	// must never be touched)
+	if sc.Knobs.LocalPort > 0 && len(sc.Listeners) == 0 && os.Getenv("VERIF_NETNS") == "1" && os.Getenv("VERIF_ROLE") == "worker" {
 		const f = "/proc/sys/net/ipv4/ip_local_port_range"
 		if old, err := os.ReadFile(f); err == nil {
 			v := strconv.Itoa(sc.Knobs.LocalPort)
